@@ -372,6 +372,7 @@ def fault_sweep(sub, chunk):
             os.makedirs(cdir)
             shutil.copytree(tplb, os.path.join(cdir, "b"), symlinks=True)
             w = FaultWorld(backing_url="file://" + cdir + "/", significant=lambda op, path: op in sched.MUTATING)
+            w.timeout = 600       # one step = everything up to the next mutating operation; generous on a loaded machine
             br = _b.Branch.open(w.url("b"))
             tree = br.create_checkout(os.path.join(cdir, "t"), lightweight=True)
             with tree.lock_write():
@@ -401,8 +402,16 @@ def fault_sweep(sub, chunk):
             shutil.rmtree(cdir, ignore_errors=True)
 
         def run_commit(w, tree, **extra):
-            w.spawn("c", lambda: do_commit(tree, combo, b"r1", **extra))
-            w.finish_all()
+            try:
+                w.spawn("c", lambda: do_commit(tree, combo, b"r1", **extra))
+                w.finish_all()
+            except core.MachineryError as ex:       # the commit thread is stuck: say where
+                import sys
+                import traceback
+                th = w.procs["c"]["thread"]
+                fr = sys._current_frames().get(th.ident)
+                where = "".join(traceback.format_stack(fr)[-12:]) if fr else "?"
+                raise core.MachineryError("%s\nedits %s commit %s faults %s\n%s" % (ex, st["h"], commit_kwargs(combo), list(w.faults), where))
             res = w.result("c")
             return res[1] if res and res[0] == "ok" else "raised:%s" % (res[1] if res else "?")
 
